@@ -71,7 +71,7 @@ Lemma suspended_foreign w g fr :
   g_frame g = Some fr ->
   NoDup (chain_from w fr) -> hd_error (chain_from w fr) = Some fr ->
   ~ In fr (thread_frames w) ->
-  (w_parent_active w = true -> true_caller w <> None) ->
+  (has_parent w = true -> true_caller w <> None) ->
   unwrap_greenlet w g = GSlice (SFrames (rev (chain_from w fr))).
 Proof.
   intros Hf ND Hhd Hnot Htc. unfold unwrap_greenlet. rewrite Hf.
@@ -86,7 +86,7 @@ Proof.
       destruct (index_of_Some _ _ _ E) as [Hn _]. eapply nth_error_In; eauto.
     - destruct (index_of fr (thread_frames w)) eqn:E2; [|reflexivity].
       exfalso. apply Hnot. destruct (index_of_Some _ _ _ E2) as [Hn _]. eapply nth_error_In; eauto. }
-  destruct (w_parent_active w) eqn:Ea.
+  destruct (has_parent w) eqn:Ea.
   - destruct (true_caller w) eqn:Et; [|exfalso; apply Htc; auto].
     simpl. rewrite Hgb. simpl. fold ch. unfold try_chain. rewrite (take_until_last ch fr ND Hne).
     destruct (rev ch) eqn:Er.
@@ -99,15 +99,6 @@ Proof.
 Qed.
 
 (* ---- positions of the ends of a segment *)
-Lemma index_of_app_notin x A L :
-  ~ In x A -> index_of x (A ++ L) = option_map (Nat.add (length A)) (index_of x L).
-Proof.
-  induction A as [|y A IH]; simpl; intros H.
-  - destruct (index_of x L); reflexivity.
-  - destruct (x =? y) eqn:E; [apply Nat.eqb_eq in E; subst; tauto|].
-    rewrite IH by tauto. destruct (index_of x L); reflexivity.
-Qed.
-
 Lemma index_of_cons x y l :
   index_of x (y :: l) = if x =? y then Some 0 else option_map S (index_of x l).
 Proof. reflexivity. Qed.
@@ -141,20 +132,6 @@ Proof.
   rewrite skipn_app. rewrite skipn_all. rewrite Nat.sub_diag. reflexivity.
 Qed.
 
-Lemma chain_from_cur w p b :
-  NoDup (concat (all_chains w)) -> index_of p (caller_chain w) = Some b ->
-  chain_from w p = skipn b (caller_chain w).
-Proof.
-  intros ND Hb. unfold chain_from, all_chains in *. simpl in *.
-  destruct (cur_split w) as [pre E]. rewrite E in *.
-  assert (Hin : In p (caller_chain w)).
-  { destruct (index_of_Some _ _ _ Hb) as [H _]. eapply nth_error_In; eauto. }
-  assert (Hn : ~ In p pre).
-  { intros HI. rewrite <- app_assoc in ND. eapply (NoDup_app_disj _ _ p ND HI). apply in_or_app. auto. }
-  rewrite suffix_from_app_notin by exact Hn.
-  rewrite (suffix_from_index _ _ _ Hb). reflexivity.
-Qed.
-
 (* the greenlet that asks about itself: exactly its own portion of the running stack *)
 Lemma current_own w g tc :
   wf w -> g_frame g = None -> g_active g = true -> g_current g = true ->
@@ -164,7 +141,7 @@ Lemma current_own w g tc :
   unwrap_greenlet w g = GSlice (SFrames (rev (caller_chain w))).
 Proof.
   intros Hwf Hf Ha Hc Htc Hpar Hmain. unfold unwrap_greenlet. rewrite Hf, Ha, Hc, Htc. simpl negb. cbv iota.
-  destruct Hwf as [ND Hact]. pose proof (wf_nodup_thread w ND) as NDT.
+  pose proof Hwf as ND. unfold wf in ND. pose proof (wf_nodup_thread w ND) as NDT.
   assert (Hcc : exists l, caller_chain w = tc :: l).
   { unfold true_caller in Htc. destruct (caller_chain w) as [|y l]; simpl in Htc; [discriminate|].
     injection Htc as ->. eauto. }
@@ -185,7 +162,7 @@ Proof.
     { apply index_of_last_app; assumption. }
     assert (Hib : index_of tc (thread_frames w) = Some 0) by (apply true_caller_hd; exact Htc).
     assert (Hle : 0 <= length (caller_chain w) - 1) by lia.
-    rewrite (slice_exact w _ _ None (conj ND Hact) Htcnz).
+    rewrite (slice_exact w _ _ None Hwf Htcnz).
     + unfold true_stack, keep_limit.
       rewrite (between_pos (thread_frames w) (Some (last (caller_chain w) tc)) (Some tc) _ 0 NDT Hia Hib Hle).
       rewrite HT. replace (length (caller_chain w) - 1) with (length (@nil nat) + length (caller_chain w) - 1) by (simpl; lia).
@@ -197,7 +174,7 @@ Proof.
     + simpl. unfold true_stack. rewrite <- (rev_firstn_from_anchor _ _ _ NDT Hia).
       rewrite <- in_rev. unfold thread_frames. rewrite Hcc. simpl. left. reflexivity.
     + exact I.
-  - rewrite (slice_exact w None (Some tc) None (conj ND Hact) Htcnz I).
+  - rewrite (slice_exact w None (Some tc) None Hwf Htcnz I).
     + unfold true_stack, keep_limit.
       assert (Hib : index_of tc (thread_frames w) = Some 0) by (apply true_caller_hd; exact Htc).
       rewrite (between_pos _ None (Some tc) (length (thread_frames w)) 0 NDT eq_refl Hib) by lia.
@@ -219,7 +196,7 @@ Lemma suspended_ancestor w g fr A p B :
 Proof.
   intros Hwf Htc Hf Hch Hhd HT. unfold unwrap_greenlet. rewrite Hf, Hch.
   rewrite walk_to_none_last. rewrite (hd_tl_last _ _ Hhd).
-  destruct Hwf as [ND Hact]. pose proof (wf_nodup_thread w ND) as NDT.
+  pose proof Hwf as ND. unfold wf in ND. pose proof (wf_nodup_thread w ND) as NDT.
   assert (Hne : p <> []) by (intros E; rewrite E in Hhd; discriminate).
   assert (Hl : 1 <= length p) by (destruct p; simpl; [congruence|lia]).
   rewrite HT in NDT.
@@ -228,16 +205,16 @@ Proof.
   assert (HnA : forall x, In x p -> ~ In x A).
   { intros x Hx HA. apply (NoDup_app_disj _ _ x NDT HA). apply in_or_app. left. exact Hx. }
   assert (Hib : index_of fr (thread_frames w) = Some (length A)).
-  { rewrite HT. rewrite index_of_app_notin by (apply HnA; exact Hfrp).
+  { rewrite HT. rewrite index_of_app_notin' by (apply HnA; exact Hfrp).
     destruct p as [|y q]; simpl in Hhd; [discriminate|]. injection Hhd as ->. simpl. rewrite Nat.eqb_refl.
     simpl. f_equal. lia. }
   assert (Hia : index_of (last p fr) (thread_frames w) = Some (length A + length p - 1)).
-  { rewrite HT. rewrite index_of_app_notin.
+  { rewrite HT. rewrite index_of_app_notin'.
     - rewrite (index_of_last_app p B fr NDp Hne). simpl. f_equal. lia.
     - apply HnA. destruct p as [|y q]; [congruence|]. apply last_In. }
   rewrite <- HT in NDT.
   f_equal.
-  rewrite (slice_exact w (Some (last p fr)) (Some fr) None (conj ND Hact) Htc).
+  rewrite (slice_exact w (Some (last p fr)) (Some fr) None Hwf Htc).
   - unfold true_stack, keep_limit.
     rewrite (between_pos (thread_frames w) (Some (last p fr)) (Some fr) _ _ NDT Hia Hib) by lia.
     rewrite HT. f_equal. apply pos_slice_segment. exact Hne.
@@ -258,7 +235,7 @@ Qed.
 Definition wg : world :=
   {| w_cur := [Build_cframe 50 "stackscope._glue" false; Build_cframe 51 "functools" true;
                Build_cframe 52 "stackscope._extract" false; Build_cframe 6 "app" false; Build_cframe 5 "app" false];
-     w_parent_active := true; w_parents := [[4; 3]; [2; 1; 0]];
+     w_parents := [[4; 3]; [2; 1; 0]];
      w_threads := [(true, [])]; w_chains := [[21; 20]] |}.
 
 Example wg_examples :
@@ -272,6 +249,6 @@ Example wg_examples :
   /\ thread_frames wg = [6; 5] ++ [4; 3] ++ [2; 1; 0] /\ chain_from wg 4 = [4; 3].
 Proof.
   split.
-  { split; [|reflexivity]. vm_compute. repeat (constructor; [simpl; intuition discriminate|]). constructor. }
+  { unfold wf. vm_compute. repeat (constructor; [simpl; intuition discriminate|]). constructor. }
   repeat split; vm_compute; reflexivity.
 Qed.
